@@ -12,7 +12,7 @@ From Coq Require Import List Arith Bool Reals.
 From TLV Require Import Base.Ops Base.Tensor Base.RSum Model.Svd Proofs.SvdProofsAux Proofs.SvdProofs
   Proofs.SvdNNProofs Proofs.SvdSymeigProofs Proofs.SvdRandProofs Proofs.SvdInterfaceProofs
   Proofs.SvdGramProofs Proofs.SvdSymeigFull Proofs.SvdMaskProofs Proofs.SvdDecisions
-  Proofs.SvdWitness Proofs.SvdSymeigShapes Proofs.SvdEckartYoung Proofs.SvdRandE2E Proofs.SvdInterfaceAll Proofs.SvdSymeigBest Base.BigSum Model.SvdConj Proofs.SvdConjProofs.
+  Proofs.SvdWitness Proofs.SvdSymeigShapes Proofs.SvdEckartYoung Proofs.SvdRandE2E Proofs.SvdInterfaceAll Proofs.SvdSymeigBest Base.BigSum Model.SvdConj Proofs.SvdConjProofs Model.SvdValidate Proofs.SvdValidateProofs Proofs.SvdUnique.
 Import ListNotations.
 Local Open Scope nat_scope.
 
@@ -864,3 +864,198 @@ Print Assumptions C05_conj_flip_deciding.
 (* the hypothesis `conj(g) g = 1` is satisfiable (here: integers, trivial conjugation, g = -1) *)
 Example C05_conj_flip_hyp_satisfiable : forall t : nat, t < 3 -> ((fun x : BinNums.Z => x) ((fun _ : nat => (-1)%Z) t) * (fun _ : nat => (-1)%Z) t = 1)%Z.
 Proof. intros t _. reflexivity. Qed.
+
+(* ================= round 6 ================= *)
+(* --- the singular values are determined by the matrix (FULL, from Eckart-Young + the truncation error identity): any two
+       decompositions M = sum_t u_t s_t v_t^T with orthonormal u_t, v_t and sorted non-negative s have the same s.  Hence the S
+       returned by svd_interface is the prefix of the S of EVERY singular value decomposition of the input: "equal to the true
+       leading singular values" without reference to LAPACK --- *)
+Theorem C05_singular_values_unique_fn : forall m n p (M U V U' V' : nat -> nat -> R) (s s' : nat -> R),
+  orthonormal_cols m p U -> orthonormal_rows p n V ->
+  (forall t, t < p -> (0 <= s t)%R) -> (forall i j, i <= j -> j < p -> (s j <= s i)%R) ->
+  (forall i j, i < m -> j < n -> M i j = rsum p (fun t => (U i t * s t * V t j)%R)) ->
+  orthonormal_cols m p U' -> orthonormal_rows p n V' ->
+  (forall t, t < p -> (0 <= s' t)%R) -> (forall i j, i <= j -> j < p -> (s' j <= s' i)%R) ->
+  (forall i j, i < m -> j < n -> M i j = rsum p (fun t => (U' i t * s' t * V' t j)%R)) ->
+  forall t, t < p -> s t = s' t.
+Proof. exact singular_values_unique_fn. Qed.
+Print Assumptions C05_singular_values_unique_fn.
+
+Theorem C05_singular_values_unique : forall d1 d2 (Mf : nat -> nat -> R) (U V U' V' : list (list R)) (s s' : list R),
+  svd_contract d1 d2 Mf false (U, s, V) -> svd_contract d1 d2 Mf false (U', s', V') -> s = s'.
+Proof. exact singular_values_unique. Qed.
+Print Assumptions C05_singular_values_unique.
+
+Theorem C05_interface_S_true : forall (orc : list (list R) -> bool -> triple R) (funs : fname -> nat -> list (list R) -> triple R)
+    d1 d2 (Ml : list (list R)) r flip ub iters sq eps U S V,
+  (forall f, svd_contract d1 d2 (mget Rops Ml) f (orc Ml f)) ->
+  (forall c X, funs FTruncated c X = truncated_svd (orc X) d1 d2 (Some r)) -> 1 <= r <= Nat.min d1 d2 ->
+  svd_interface Rops funs MTruncated d2 Ml (Some r) flip ub None None iters sq eps = Ok (U, S, V) ->
+  forall Ux Sx Vx, svd_contract d1 d2 (mget Rops Ml) false (Ux, Sx, Vx) -> S = firstn r Sx.
+Proof. exact interface_S_true. Qed.
+Print Assumptions C05_interface_S_true.
+
+(* --- complex scalars in the EXECUTABLE model: Model/SvdComplex.v instantiates the conjugate-aware, scalar-polymorphic functions of
+       Model/SvdConj.v (svd_flip_conj, symeig_svd_conj, svd_interface_flip) at the Gaussian rationals; the correspondence evaluates
+       them inside Coq on complex requests.  For the identity conjugation the polymorphic functions ARE the real model --- *)
+Theorem C05_symeig_conj_real : forall (F : Type) (Op : fops F) eigh sq eps (M : list (list F)) d1 d2 n,
+  symeig_svd_conj Op (fun x => x) eigh sq eps M d1 d2 n = symeig_svd Op eigh sq eps M d1 d2 n.
+Proof. exact @symeig_conj_real. Qed.
+Print Assumptions C05_symeig_conj_real.
+
+Theorem C05_interface_flip_real : forall (F : Type) (Op : fops F) funs meth d2 (M : list (list F)) n flip ub iters sq eps,
+  svd_interface_flip (svd_flip Op) funs meth M flip ub = svd_interface Op funs meth d2 M n flip ub None None iters sq eps.
+Proof. exact @interface_flip_real. Qed.
+Print Assumptions C05_interface_flip_real.
+
+(* --- argument validation (Model/SvdValidate.v): exactly which requests raise - an unknown method name, a non_negative value other
+       than None / False / True / 'nndsvd' / 'nndsvda', or a non-matrix handed to a built-in method (svd_checks' ndim test; a callable
+       is not validated by tensorly) --- *)
+Theorem C05_svd_checks_nd_spec : forall shape n, (exists t, svd_checks_nd shape n = Ok t) <-> length shape = 2.
+Proof. exact svd_checks_nd_spec. Qed.
+Print Assumptions C05_svd_checks_nd_spec.
+
+Theorem C05_request_rejected_spec : forall shape meth nn,
+  request_rejected shape meth nn = true <->
+  meth = MUnknown \/ nn = NRother \/ (meth <> MCallable /\ length shape <> 2).
+Proof. exact request_rejected_spec. Qed.
+Print Assumptions C05_request_rejected_spec.
+
+(* --- keyword arguments: svd_interface consults the back ends only at the request's own **kwargs and n_eigenvecs, on every call incl.
+       those inside the mask loop (two back-end tables that agree there give the same result); truncated_svd and symeig_svd ignore
+       the keyword arguments, randomized_svd reads exactly n_oversamples, n_iter and the draw of random_state --- *)
+Theorem C05_interface_kw_forwarded : forall (KW : Type) (backends backends' : fname -> KW -> option nat -> nat -> list (list R) -> triple R) (kw : KW)
+    meth d2 Ml n flip ub nn mask iters sq eps,
+  (forall f c X, backends f kw n c X = backends' f kw n c X) ->
+  svd_interface_kw Rops backends kw meth d2 Ml n flip ub nn mask iters sq eps
+  = svd_interface_kw Rops backends' kw meth d2 Ml n flip ub nn mask iters sq eps.
+Proof. exact @interface_kw_forwarded. Qed.
+Print Assumptions C05_interface_kw_forwarded.
+
+Theorem C05_builtin_kwargs : forall (svd : list (list R) -> bool -> triple R) eigh qr user sq eps d1 d2 (kw kw' : rkw R) n c X,
+  builtin_backends Rops svd eigh qr user sq eps d1 d2 FTruncated kw n c X = builtin_backends Rops svd eigh qr user sq eps d1 d2 FTruncated kw' n c X /\
+  builtin_backends Rops svd eigh qr user sq eps d1 d2 FSymeig kw n c X = builtin_backends Rops svd eigh qr user sq eps d1 d2 FSymeig kw' n c X /\
+  builtin_backends Rops svd eigh qr user sq eps d1 d2 FRandomized kw n c X
+    = randomized_svd Rops svd qr (kw_draw kw) X d1 d2 n (kw_n_oversamples kw) (kw_n_iter kw).
+Proof. exact builtin_kwargs. Qed.
+Print Assumptions C05_builtin_kwargs.
+
+(* --- masked end-to-end statements for the other two methods, and the non_negative step --- *)
+(* symeig_svd under a mask (FULL): if on EVERY d1 x d2 matrix eigh's answer on the Gram matrix meets eigh_contract2 with the kept
+   eigenvalues above eps, the result is the sign-resolved symeig SVD of the LAST imputed matrix (which agrees with the input on the
+   observed entries): S = sqrt of its leading eigenvalues, orthonormal factors, error = its discarded eigenvalues *)
+Theorem C05_interface_masked_symeig_e2e : forall (eigh : list (list R) -> list R * list (list R)) (funs : fname -> nat -> list (list R) -> triple R)
+    epsd (Ml mask : list (list R)) d1 d2 r flip ub iters sq eps U Sg V,
+  rect d1 d2 Ml -> rect d1 d2 mask -> 1 <= d1 -> 1 <= iters -> r <= Nat.min d1 d2 ->
+  let d := if d2 <? d1 then d1 else d2 in
+  (forall G0, length (fst (eigh G0)) = d /\ rect d d (snd (eigh G0))) ->
+  (forall X, rect d1 d2 X ->
+     eigh_contract2 d (gram_of d1 d2 X) (fst (eigh (gram_of d1 d2 X))) (snd (eigh (gram_of d1 d2 X))) /\
+     forall t, t < r -> (0 <= epsd < nth (d - 1 - t) (fst (eigh (gram_of d1 d2 X))) 0)%R) ->
+  (forall cl X, funs FSymeig cl X = symeig_svd Rops eigh sqrt epsd X d1 d2 (Some r)) ->
+  svd_interface Rops funs MSymeig d2 Ml (Some r) flip ub None (Some mask) iters sq eps = Ok (U, Sg, V) ->
+  exists Mlast,
+    rect d1 d2 Mlast /\
+    (forall i j, i < d1 -> j < d2 -> mget Rops mask i j = 1%R -> mget Rops Mlast i j = mget Rops Ml i j) /\
+    let lam := fst (eigh (gram_of d1 d2 Mlast)) in
+    length Sg = r /\
+    (forall t, t < r -> nth t Sg 0%R = sqrt (nth (d - 1 - t) lam 0%R) /\ (0 < nth t Sg 0)%R) /\
+    orthonormal_cols d1 r (mget Rops U) /\ orthonormal_rows r d2 (mget Rops V) /\
+    frob2 d1 d2 (fun i j => (mget Rops Mlast i j - recon U Sg V i j)%R) = rsum (d - r) (fun t => nth (d - 1 - (r + t)) lam 0%R).
+Proof. exact interface_masked_symeig_e2e. Qed.
+Print Assumptions C05_interface_masked_symeig_e2e.
+
+(* randomized_svd under a mask, non-transposed branch (PARTIAL: the range finder's Q must cover the range of every imputed matrix) *)
+Theorem C05_interface_masked_randomized_direct_partial : forall (svd : list (list R) -> bool -> triple R) (qr : nat -> list (list R) -> list (list R))
+    (funs : fname -> nat -> list (list R) -> triple R) (G Ml mask : list (list R)) d1 d2 r n_over n_iter c flip ub iters sq eps U Sg V,
+  rect d1 d2 Ml -> rect d1 d2 mask -> 1 <= d1 -> 1 <= iters ->
+  let k := n_kept d1 d2 (Some r) in
+  dec_rand_transposed d1 d2 k (Nat.min d1 d2) (dec_rand_ndims k n_over (Nat.max d1 d2)) = false ->
+  (forall X, rect d1 d2 X ->
+     let Q := range_finder Rops qr X d2 G n_iter in
+     rect d1 c Q /\ orthonormal_cols d1 c (mget Rops Q) /\ covers d1 d2 c (mget Rops X) (mget Rops Q) /\
+     forall f, svd_contract c d2 (mget Rops (mmul Rops d2 (transp Rops c Q) X)) f (svd (mmul Rops d2 (transp Rops c Q) X) f)) ->
+  (forall cl X, funs FRandomized cl X = randomized_svd Rops svd qr G X d1 d2 (Some r) n_over n_iter) ->
+  svd_interface Rops funs MRandomized d2 Ml (Some r) flip ub None (Some mask) iters sq eps = Ok (U, Sg, V) ->
+  let kk := Nat.min k (Nat.max c d2) in
+  exists Mlast,
+    rect d1 d2 Mlast /\
+    (forall i j, i < d1 -> j < d2 -> mget Rops mask i j = 1%R -> mget Rops Mlast i j = mget Rops Ml i j) /\
+    nonneg_list Sg /\ nonincreasing Sg /\
+    orthonormal_cols d1 (Nat.min kk c) (mget Rops U) /\ orthonormal_rows (Nat.min kk d2) d2 (mget Rops V) /\
+    (forall B, rank_le d1 d2 k B ->
+       (frob2 d1 d2 (fun i j => (mget Rops Mlast i j - recon U Sg V i j)%R) <= frob2 d1 d2 (fun i j => (mget Rops Mlast i j - B i j)%R))%R).
+Proof. exact interface_masked_randomized_direct_partial. Qed.
+Print Assumptions C05_interface_masked_randomized_direct_partial.
+
+(* the non_negative step never touches the singular values (every method, mask, flip) *)
+Theorem C05_interface_nn_same_S : forall (funs : fname -> nat -> list (list R) -> triple R) meth d2 Ml n flip ub ty mask iters sq eps U S V U' S' V',
+  svd_interface Rops funs meth d2 Ml n flip ub (Some ty) mask iters sq eps = Ok (U, S, V) ->
+  svd_interface Rops funs meth d2 Ml n flip ub None mask iters sq eps = Ok (U', S', V') -> S = S'.
+Proof. exact interface_nn_same_S. Qed.
+Print Assumptions C05_interface_nn_same_S.
+
+(* the S statement for EVERY n_eigenvecs (LAPACK's full_matrices=True answer carries the same singular values as any thin decomposition) *)
+Theorem C05_interface_S_true_gen : forall (orc : list (list R) -> bool -> triple R) (funs : fname -> nat -> list (list R) -> triple R)
+    d1 d2 (Ml : list (list R)) n flip ub iters sq eps U S V,
+  (forall f, svd_contract d1 d2 (mget Rops Ml) f (orc Ml f)) ->
+  (forall c X, funs FTruncated c X = truncated_svd (orc X) d1 d2 n) -> 1 <= d1 ->
+  svd_interface Rops funs MTruncated d2 Ml n flip ub None None iters sq eps = Ok (U, S, V) ->
+  forall Ux Sx Vx, svd_contract d1 d2 (mget Rops Ml) false (Ux, Sx, Vx) -> S = firstn (n_kept d1 d2 n) Sx.
+Proof. exact interface_S_true_gen. Qed.
+Print Assumptions C05_interface_S_true_gen.
+
+(* randomized_svd under a mask, transposed branch (PARTIAL, range covering for every imputed matrix) *)
+Theorem C05_interface_masked_randomized_transposed_partial : forall (svd : list (list R) -> bool -> triple R) (qr : nat -> list (list R) -> list (list R))
+    (funs : fname -> nat -> list (list R) -> triple R) (G Ml mask : list (list R)) d1 d2 r n_over n_iter c flip ub iters sq eps U Sg V,
+  rect d1 d2 Ml -> rect d1 d2 mask -> 1 <= d1 -> 1 <= d2 -> 1 <= iters ->
+  let k := n_kept d1 d2 (Some r) in
+  dec_rand_transposed d1 d2 k (Nat.min d1 d2) (dec_rand_ndims k n_over (Nat.max d1 d2)) = true ->
+  (forall X, rect d1 d2 X ->
+     let Q := range_finder Rops qr (transp Rops d2 X) d1 G n_iter in
+     let Mred := transp Rops d1 (mmul Rops d1 (transp Rops c Q) (transp Rops d2 X)) in
+     rect d2 c Q /\ orthonormal_cols d2 c (mget Rops Q) /\ coversT d1 d2 c (mget Rops X) (mget Rops Q) /\
+     forall f, svd_contract d1 c (mget Rops Mred) f (svd Mred f)) ->
+  (forall cl X, funs FRandomized cl X = randomized_svd Rops svd qr G X d1 d2 (Some r) n_over n_iter) ->
+  svd_interface Rops funs MRandomized d2 Ml (Some r) flip ub None (Some mask) iters sq eps = Ok (U, Sg, V) ->
+  let kk := Nat.min k (Nat.max d1 c) in
+  exists Mlast,
+    rect d1 d2 Mlast /\
+    (forall i j, i < d1 -> j < d2 -> mget Rops mask i j = 1%R -> mget Rops Mlast i j = mget Rops Ml i j) /\
+    nonneg_list Sg /\ nonincreasing Sg /\
+    orthonormal_cols d1 (Nat.min kk d1) (mget Rops U) /\ orthonormal_rows (Nat.min kk c) d2 (mget Rops V) /\
+    (forall B, rank_le d1 d2 k B ->
+       (frob2 d1 d2 (fun i j => (mget Rops Mlast i j - recon U Sg V i j)%R) <= frob2 d1 d2 (fun i j => (mget Rops Mlast i j - B i j)%R))%R).
+Proof. exact interface_masked_randomized_transposed_partial. Qed.
+Print Assumptions C05_interface_masked_randomized_transposed_partial.
+
+(* two decompositions with different numbers of terms p <= p': the common singular values agree and the extra ones vanish (FULL) *)
+Theorem C05_singular_values_unique_fn2 : forall m n p p' (M U V U' V' : nat -> nat -> R) (s s' : nat -> R),
+  p <= p' ->
+  orthonormal_cols m p U -> orthonormal_rows p n V ->
+  (forall t, t < p -> (0 <= s t)%R) -> (forall i j, i <= j -> j < p -> (s j <= s i)%R) ->
+  (forall i j, i < m -> j < n -> M i j = rsum p (fun t => (U i t * s t * V t j)%R)) ->
+  orthonormal_cols m p' U' -> orthonormal_rows p' n V' ->
+  (forall t, t < p' -> (0 <= s' t)%R) -> (forall i j, i <= j -> j < p' -> (s' j <= s' i)%R) ->
+  (forall i j, i < m -> j < n -> M i j = rsum p' (fun t => (U' i t * s' t * V' t j)%R)) ->
+  (forall t, t < p -> s t = s' t) /\ (forall t, p <= t -> t < p' -> s' t = 0%R).
+Proof. exact singular_values_unique_fn2. Qed.
+Print Assumptions C05_singular_values_unique_fn2.
+
+(* randomized_svd, non-transposed branch, range covered (PARTIAL in that hypothesis only): the returned singular values are the leading
+   singular values of EVERY singular value decomposition of M - "the randomized method meets this whenever the requested rank plus
+   oversampling covers the matrix rank", for the clause "equal to the true leading singular values" *)
+Theorem C05_randomized_S_true_partial : forall (svd : list (list R) -> bool -> triple R) (qr : nat -> list (list R) -> list (list R))
+    (G M : list (list R)) d1 d2 n n_over n_iter c U Sg V,
+  rect d1 d2 M -> 1 <= d1 -> c <= d1 ->
+  let k := n_kept d1 d2 n in
+  dec_rand_transposed d1 d2 k (Nat.min d1 d2) (dec_rand_ndims k n_over (Nat.max d1 d2)) = false ->
+  let Q := range_finder Rops qr M d2 G n_iter in
+  rect d1 c Q -> orthonormal_cols d1 c (mget Rops Q) -> covers d1 d2 c (mget Rops M) (mget Rops Q) ->
+  let Mred := mmul Rops d2 (transp Rops c Q) M in
+  (forall f, svd_contract c d2 (mget Rops Mred) f (svd Mred f)) ->
+  randomized_svd Rops svd qr G M d1 d2 n n_over n_iter = (U, Sg, V) ->
+  forall Ux Sx Vx, svd_contract d1 d2 (mget Rops M) false (Ux, Sx, Vx) ->
+  forall t, t < length Sg -> nth t Sg 0%R = nth t Sx 0%R.
+Proof. exact randomized_S_true. Qed.
+Print Assumptions C05_randomized_S_true_partial.
